@@ -286,6 +286,11 @@ class Ctx:
         self.module, self.func, self.closure, self.depth = module, func, closure, depth
 
 
+# decorators that leave the body's meaning to the evaluator's own handling (binding, memoisation is checked by C08/C10)
+TRANSPARENT_DECORATORS = {'property', 'staticmethod', 'classmethod', 'setter', 'getter', 'dataclass', 'abstractmethod',
+                          'override', 'overload', 'final', 'wraps', 'lru_cache', 'cache', 'cached_property', 'no_type_check',
+                          'total_ordering', 'deprecated'}
+
 MATH_FUNCS = {'sin', 'cos', 'tan', 'atan', 'atan2', 'exp', 'log', 'sqrt', 'fabs', 'pow', 'asin', 'radians',
               'degrees', 'floor', 'copysign', 'hypot', 'acos', 'ceil'}
 
@@ -1436,6 +1441,10 @@ class Evaluator:
         if self.is_opaque(func):
             path = func.qualname if self_val is None else f'{self.describe(self_val)}.{func.name}'
             return self.sym_call(path, args, kwargs)
+        for d_ in func.decorators:
+            if d_.split('.')[-1] not in TRANSPARENT_DECORATORS:
+                # a wrapper around the body: reading the bare body would misread the function
+                raise Undecided(f'{func.qualname} is wrapped by the decorator `{d_}`, which the evaluator does not apply')
         if ctx.depth >= self.max_depth:
             raise Undecided(f'inlining depth exceeded at {func.qualname}')
         needs_self = func.cls is not None and func.outer is None and not func.is_static
